@@ -41,7 +41,7 @@ class MappingPurity(Facet):
         return (60, 8) if tier == "quick" else (400, 16)
 
     def strategy(self, tier):
-        return world_cases(self.flags, reps=self.reps, deciders=("maxdepth", "pigrow", "full"), max_ops=8, depth_extras=(1, 2, 3), with_burn=True)
+        return world_cases(self.flags, reps=self.reps, deciders=("maxdepth", "pigrow", "full", "progressive"), max_ops=8, depth_extras=(1, 2, 3), with_burn=True)
 
     def run(self, case, rec):
         w = World(case)
